@@ -227,6 +227,7 @@ func stateListOrArrayT(s *scanner, c byte) int {
 		s.step = stateArrayT
 		return scanListType
 	}
+	s.step = stateInUnquotedString
 	return stateInUnquotedString(s, c)
 }
 
